@@ -190,6 +190,7 @@ class Engine:
         self.handling = []           # exceptions being handled (for a bare `raise`)
         self.in_memo = None          # qualname of the memoised function whose body is being interpreted
         self._frame_checked = set()
+        self._ctor_assigns_cache = {}
         self.on_obligation = None
         self.assume_proved = True
         self.path_tag = ""
@@ -426,6 +427,25 @@ class Engine:
             f = ast.unparse(e.func).split(".")[-1]
             return f in ("list", "dict", "set", "OrderedDict", "defaultdict", "deque", "bytearray", "WeakValueDictionary", "Counter")
         return False
+
+    def ctor_assigns(self, clsname, name):
+        """Does some __init__ / __post_init__ along the MRO of `clsname` assign self.<name>?"""
+        key = (clsname, name)
+        c_ = self._ctor_assigns_cache
+        if key not in c_:
+            hit = False
+            for cn in self.prog.mro(clsname):
+                c = self.prog.classes.get(cn)
+                for mn in ("__init__", "__post_init__"):
+                    m = c.methods.get(mn) if c is not None else None
+                    if m is None:
+                        continue
+                    for n in ast.walk(m.node):
+                        if isinstance(n, ast.Attribute) and isinstance(n.ctx, ast.Store) and n.attr == name and \
+                                isinstance(n.value, ast.Name) and n.value.id == "self":
+                            hit = True
+            c_[key] = hit
+        return c_[key]
 
     def frame_static_checks(self, fi):
         """Frame conditions that hold of every function of the repository on the pinned tree and on which every
@@ -1079,6 +1099,10 @@ class Engine:
                     hm = self.ext_base_methods.get(b.split(".")[-1], {})
                     if name in hm:
                         return IfaceMethod(obj, name, hm[name])
+            if self.ctor_assigns(obj.cls, name) and not self.st.ghost.get("in_init", {}).get(obj.oid):
+                # the real constructor creates this field, the object the harness built does not have it: the harness is
+                # out of date with the class (contract drift) -- not an AttributeError of the program
+                raise Unsupported("contract drift: %s.__init__ creates the field %r, which the contract's object does not know" % (obj.cls, name))
             ga = self.prog.find_method(obj.cls, "__getattr__")
             if ga is not None:
                 return self.call_value(BoundMethod(obj, ga[1]), [name], {})
